@@ -580,7 +580,7 @@ def mean_ctor_map(mods: dict[str, ast.Module]) -> str:
         if not (isinstance(v, ast.Name) and v.id == p):
             raise Unsupported(f"Mean.__init__: parameter {p} is not passed through")
     return (
-        f"-- mean.Mean.__init__  (line {fn.lineno}): the column roles handed to RatioOfMeans.__init__\n"
+        f"-- mean.Mean.__init__: the column roles handed to RatioOfMeans.__init__\n"
         f"def Mean.cfg (value : String) (covariate : Option String) (base : RatioCfg {A}) : RatioCfg {A} :=\n"
         f"  {{ base with numer := {out['numer']}, denom := {out['denom']}, "
         f"numer_covariate := {out['numer_covariate']}, denom_covariate := {out['denom_covariate']} }}\n")
@@ -599,7 +599,7 @@ def benjamini_m_adj(mods: dict[str, ast.Module]) -> str:
     want = "m * sum((1 / i for i in range(1, m + 1))) if arbitrary_dependence else m"
     if ast.unparse(v) != want:
         raise Unsupported(f"_Benjamini.__init__: m_adj_ = {ast.unparse(v)}")
-    return (f"-- mult._Benjamini.__init__  (line {fn.lineno})\n"
+    return (f"-- mult._Benjamini.__init__\n"
             f"def Benjamini.mk (alpha : {A}) (m : ℕ) (arbitrary_dependence : Bool) : BenjaminiCfg {A} :=\n"
             f"  {{ alpha := alpha, m_adj_ := if arbitrary_dependence = true then (m : {A}) * harmonic m else (m : {A}) }}\n")
 
@@ -631,7 +631,7 @@ def generate(src: Path, refused: dict[str, str] | None = None) -> dict[str, str]
         def one(key=key, sig=sig):
             fn = find(mods, sig.get("py", key))
             tr = Tr(key, sig, fn)
-            text = f"-- {sig.get('py', key)}  (line {fn.lineno})\n" + tr.render()
+            text = f"-- {sig.get('py', key)}\n" + tr.render()
             return text, tr.guards
         r = attempt(sig["mod"], one)
         if r is None:
@@ -970,14 +970,14 @@ def generate_utils(src: Path) -> str:
     if div_src != ("if denom != 0:\n    return numer / denom\nif fill_zero_div != 'auto':\n    return fill_zero_div\n"
                    "return float('inf') if numer > 0 else float('nan')"):
         raise Unsupported("utils.div body changed")
-    div_lean = (f"-- utils.div  (line {dv.lineno}), fill_zero_div = \"auto\"; `quot` is what `numer / denom` evaluates to\n"
+    div_lean = (f"-- utils.div, fill_zero_div = \"auto\"; `quot` is what `numer / denom` evaluates to\n"
                 "def divAuto (numer denom quot : XR) : XR :=\n"
                 "  if !(XR.eq denom (XR.fin 0)) then quot\n"
                 "  else if XR.lt (XR.fin 0) numer then XR.pinf else XR.nan\n\n")
     return ("-- GENERATED by harness/translate.py from /repo/src/tea_tasting — do not edit.\n"
             "import TeaTasting.Basic.PyVal\n\nnamespace Gen\n\n"
-            f"-- utils.check_scalar  (line {cs.lineno})\n" + tr_check_scalar(cs) + "\n"
-            f"-- utils.auto_check  (line {ac.lineno})\n" + "\n".join(auto) + "\n\n" + div_lean +
+            f"-- utils.check_scalar\n" + tr_check_scalar(cs) + "\n"
+            f"-- utils.auto_check\n" + "\n".join(auto) + "\n\n" + div_lean +
             "-- arguments of the check_scalar calls found in the entry points\n" + "".join(args_defs) + "\n"
             "def argsTable : List (String × CheckArgs) := [\n"
             + ",\n".join(f"  (\"{d.split()[1][5:]}\", {d.split()[1]})" for d in args_defs) + "\n]\n\n"
@@ -1078,8 +1078,8 @@ def generate_config(src: Path) -> str:
     b = lambda x: "true" if x else "false"  # noqa: E731
     return ("-- GENERATED by harness/translate.py from /repo/src/tea_tasting/config.py — do not edit.\n"
             "import TeaTasting.Basic.PyVal\n\nnamespace Gen\n\n"
-            f"-- config.set_config (line {sc.lineno}), config.config_context (line {cc.lineno}), "
-            f"config.get_config (line {gc.lineno})\n"
+            f"-- config.set_config, config.config_context, "
+            f"config.get_config\n"
             "def configImpl : ConfigImpl :=\n"
             f"  {{ validateFirst := {b(validate_first)}, enterInTry := {b(calls_in_try)}, "
             f"restoreClear := {b(restore_clear)}, getCopies := {b(copies)} }}\n\n"
@@ -1188,10 +1188,10 @@ def generate_solve(src: Path) -> str:
     return ("-- GENERATED by harness/translate.py from /repo/src/tea_tasting/metrics/mean.py — do not edit.\n"
             "import TeaTasting.Gen.Mean\n\n"
             f"variable {{{A} : Type}} [Field {A}] [LinearOrder {A}] [IsStrictOrderedRing {A}]\n\nnamespace Gen\n\n"
-            f"-- mean.MAX_ITER, default `mult` of mean._find_boundary (line {fb.lineno})\n"
+            f"-- mean.MAX_ITER, default `mult` of mean._find_boundary\n"
             f"def MAX_ITER : ℕ := {consts['MAX_ITER']}\n"
             f"def boundaryMult : {A} := ({mult.value} : {A})\n\n"
-            f"-- mean.RatioOfMeans._solve_power_from_stats (line {fn.lineno}): solving for the effect size —\n"
+            f"-- mean.RatioOfMeans._solve_power_from_stats: solving for the effect size —\n"
             "-- the start value handed to _find_boundary; the bracket is sorted((0, other_bound))\n"
             f"def RatioOfMeans.solve_effect_init (P : Prims {A}) (self : RatioCfg {A}) (sample_var : {A}) "
             f"(sample_count : {A}) : {A} :=\n" + e_lets + "  other_bound_init\n\n"
@@ -1457,9 +1457,9 @@ def generate_safe(src: Path) -> str:
         if key == "aggr._sorted_tuple":
             continue
         if key == "aggr.Aggregates.__add__":
-            parts.append(f"-- {key}  (line {fn.lineno})\n" + render_add_safe(fn))
+            parts.append(f"-- {key}\n" + render_add_safe(fn))
             continue
-        parts.append(f"-- {sig.get('py', key)}  (line {fn.lineno})\n" + TrSafe(key, sig, fn).render())
+        parts.append(f"-- {sig.get('py', key)}\n" + TrSafe(key, sig, fn).render())
     return ("-- GENERATED by harness/translate.py from /repo/src/tea_tasting — do not edit.\n"
             "-- Exception-safety rendering of aggr.py / metrics/mean.py (see Basic/Safe.lean).\n"
             "import TeaTasting.Basic.Safe\nimport TeaTasting.Gen.Aggr\n\nvariable {V : Type}\n\nnamespace Gen\n\n"
